@@ -2,8 +2,9 @@
    trip.  The float facts come from Proofs/PyFloatSpec.v (Flocq) and Proofs/PyFloatFinite.v
    (exhaustive), the text facts from Proofs/IsoTimeProofs.v. *)
 From Coq Require Import ZArith Reals Bool List Lia Ascii PrimFloat.
+From Flocq Require Import IEEE754.BinarySingleNaN IEEE754.PrimFloat.
 From AwVerif Require Import Base.Prelude Model.PyFloat Model.IsoTime Model.EventModel
-  Proofs.PyFloatFinite Proofs.PyFloatSpec.
+  Proofs.PyFloatFinite Proofs.PyFloatSpec Proofs.IsoTimeProofs.
 Open Scope Z_scope.
 
 Definition floor_ms (t : Z) : Z := 1000 * (t / 1000).
@@ -155,9 +156,66 @@ Proof.
   now rewrite (floor_ms_aligned t A).
 Qed.
 
+(* every offset iso8601.parse_date can produce is whole minutes, so for strings the
+   statement needs no assumption on the offset *)
+Theorem normalise_str_any_offset : forall s u off, parse_iso s = Ok (u, off) ->
+  0 <= u <= y2100 -> set_timestamp (TsStr s) = Ok (floor_ms u).
+Proof.
+  intros s u off Hs Hu. apply (normalise_str s u off Hs Hu).
+  pose proof (parse_iso_minutes s u off Hs) as M.
+  replace 60000000 with (1000 * 60000) in M by reflexivity.
+  rewrite Z.rem_mul_r in M by lia. pose proof (Z.mod_pos_bound off 1000 ltac:(lia)).
+  pose proof (Z.mod_pos_bound (off / 1000) 60000 ltac:(lia)). lia.
+Qed.
+
+Theorem json_roundtrip_ok : forall e,
+  ms_aligned (ts e) -> 0 <= ts e <= y2100 -> Z.abs (dur e) < 2 ^ 33 * 1000000 ->
+  json_roundtrip e = Ok e.
+Proof.
+  intros e A R D. apply json_roundtrip_of_iso; try assumption.
+  apply parse_isoformat; [now left | exact R].
+Qed.
+
+(* the JSON form: timestamp text of the published shape, a finite duration number equal
+   to the correctly rounded quotient, id and data untouched *)
+Theorem json_shape : forall e,
+  ms_aligned (ts e) -> 0 <= ts e <= y2100 -> Z.abs (dur e) < 2 ^ 33 * 1000000 ->
+  exists j, to_json e = Ok j /\ iso_utc_shape (j_ts j) = true /\
+            is_finite (Prim2B (j_dur j)) = true /\
+            B2R (Prim2B (j_dur j)) = RN (IZR (dur e) / 1000000) /\
+            j_id j = eid e /\ j_data j = data e.
+Proof.
+  intros [i t d x] A R D. cbn [ts dur eid data] in *. unfold to_json. cbn [eid ts dur data].
+  assert (Rg : min_us <= t <= max_us) by (unfold y2100, min_us, max_us in *; lia).
+  rewrite (dt_check_ok t Rg). cbn [bind].
+  destruct (total_seconds_finite d D) as (f & Ef & Ff & Vf). rewrite Ef. cbn [bind].
+  eexists. split; [reflexivity|]. cbn [j_ts j_dur j_id j_data].
+  split; [apply isoformat_shape; assumption|]. repeat split; assumption.
+Qed.
+
 (* the bound is sharp: at 2^33 * 10^6 + 1 us (272 years) a timedelta does not survive the
    float seconds of the JSON form *)
 Lemma json_roundtrip_huge_duration_witness :
   json_roundtrip (mkEvent None 1600000000000000 (2 ^ 33 * 1000000 + 1) 0)
   = Ok (mkEvent None 1600000000000000 (2 ^ 33 * 1000000 + 2) 0).
 Proof. vm_compute. reflexivity. Qed.
+
+Lemma normalise_sub_ms_offset_refuted : exists u off,
+  0 <= u <= y2100 /\ Z.abs off <= max_off /\
+  exists t, set_timestamp (TsDt u off) = Ok t /\ t <> floor_ms u.
+Proof.
+  exists 1600000000000999, 1. split; [vm_compute; split; discriminate|].
+  split; [vm_compute; discriminate|]. exists 1600000000000999.
+  split; [exact (proj1 normalise_sub_ms_offset_witness)|]. vm_compute. discriminate.
+Qed.
+
+Lemma json_roundtrip_unbounded_refuted : exists e,
+  ms_aligned (ts e) /\ 0 <= ts e <= y2100 /\ exists e', json_roundtrip e = Ok e' /\ dur e' <> dur e.
+Proof.
+  exists (mkEvent None 1600000000000000 (2 ^ 33 * 1000000 + 1) 0).
+  split; [reflexivity|]. split; [vm_compute; split; discriminate|].
+  eexists. split; [exact json_roundtrip_huge_duration_witness|]. vm_compute. discriminate.
+Qed.
+
+Lemma iso_text_roundtrip : forall t, 0 <= t <= y2100 -> parse_iso (isoformat_utc t) = Ok (t, 0).
+Proof. intros t H. exact (parse_isoformat "T"%char t (or_introl eq_refl) H). Qed.
